@@ -52,7 +52,10 @@ P = {
          "Theorems (Properties/C18.v, Effects/*.v).", "4 C18"),
 }
 
+HOLD = {"C16", "C17", "C18"}     # waiting for the dynamic probes (/verif/probe) before being registered
+
 def has_property_file(pid):
+    if pid in HOLD: return False
     d = os.path.join(ROOT, "coq", "theories", "Properties")
     return any(f.startswith(pid) and f.endswith(".v") for f in os.listdir(d))
 
